@@ -501,8 +501,8 @@ MUTANTS = [
          only="hdr", old="    if len(gaps) + 1 > _buffer_size:", new="    if len(gaps) > _buffer_size:"),
     dict(name="original F-C19d: natural breaks splitter ends one sample early", file="strax/processing/peak_splitting.py", only="split",
          old="            yield max_i, 0.0\n            yield len(w), 0.0", new="            yield max_i, 0.0\n            yield len(w) - 1, 0.0"),
-    dict(name="merge buffers re-zeroed over the (down-sampled) output length only", file="strax/processing/peak_merging.py", only="merge_seq",
-         old="        bl = min(int(bl / common_dt), max_buffer)\n", new="        bl = min(int(bl / common_dt), max_buffer, len(new_p[\"data\"]))\n"),
+    dict(name="merge buffer not re-zeroed between groups (the comment calls it overkill)", file="strax/processing/peak_merging.py", only="merge_seq",
+         old="        buffer[:bl] = 0\n", new="        pass\n"),
     dict(name="gap threshold strict", file="strax/processing/peak_building.py", only="peaks",
          old='            next_hit_is_far = next_hit["time"] - peak_endtime >= gap_threshold',
          new='            next_hit_is_far = next_hit["time"] - peak_endtime > gap_threshold'),
